@@ -6,9 +6,9 @@ from dashlive.server.events.ping_pong import PingPongEvents
 
 def build(key, variant, i):
     qual = key.split(':')[1]
-    ev = PingPongEvents(start=int(i['start']), interval=int(i['interval']), count=int(i['count']),
-                        duration=int(i['duration']), timescale=int(i['ets']), version=int(i['version']),
-                        inband=bool(i['inband']))
+    ev = PingPongEvents(start=int(i.get('start', 0)), interval=int(i.get('interval', 1000)), count=int(i['count']),
+                        duration=int(i['duration']), timescale=int(i['ets']), version=int(i.get('version', 0)),
+                        inband=bool(i.get('inband', True)))
     if qual == 'RepeatingEventBase.create_emsg_boxes':
         mod = int(i['mod_segment'])
         segs = [NS(duration=int(i['segdur'])) for _ in range(mod + 1)]
@@ -24,10 +24,33 @@ def build(key, variant, i):
                '__unbounded_hi__': max(0, (b - ev.start) // max(1, ev.interval)) + 3}
         return {'env': env, 'call': lambda: ev.create_emsg_boxes(
             segment_num=1, mod_segment=mod, moof=moof, representation=rep)}
+    if qual == 'RepeatingEventBase.create_manifest_context':
+        env = {'self': ev}
+        return {'env': env, 'call': lambda: ev.create_manifest_context({})}
+    if qual == 'Scte35Events.create_binary_signal':
+        from dashlive.server.events.scte35_events import Scte35Events
+        sc = Scte35Events(start=0, interval=1000, count=int(i['count']), duration=int(i['duration']),
+                          timescale=int(i['ets']), inband=True, program_id=int(i['program_id']))
+        env = {'self': sc, 'event_id': int(i['event_id']), 'presentation_time': int(i['presentation_time'])}
+        return {'env': env, 'call': lambda: sc.create_binary_signal(int(i['event_id']), int(i['presentation_time']))}
     raise KeyError(qual)
 
 
 def adapt(key, result, env):
+    if key.endswith('create_manifest_context'):
+        return NS(timescale=result.timescale, inband=result.inband,
+                  events=[NS(id=e['id'] if isinstance(e, dict) else e.id,
+                             presentationTime=e['presentationTime'] if isinstance(e, dict) else e.presentationTime,
+                             duration=e['duration'] if isinstance(e, dict) else e.duration) for e in result.events])
+    if key.endswith('create_binary_signal'):
+        si = result.splice_insert
+        return NS(splice_insert=NS(splice_time={'pts': si.splice_time.pts},
+                                   break_duration={'duration': si.break_duration.duration,
+                                                   'auto_return': bool(si.break_duration.auto_return)},
+                                   splice_event_id=si.splice_event_id, unique_program_id=si.unique_program_id,
+                                   avail_num=si.avail_num, avails_expected=si.avails_expected),
+                  descriptors=[NS(segmentation_type=d.segmentation_type, segmentation_event_id=d.segmentation_event_id)
+                               for d in result.descriptors])
     if key.endswith('create_emsg_boxes'):
         out = []
         for box in result:
@@ -37,6 +60,20 @@ def adapt(key, result, env):
                           pt=box.presentation_time_delta if v0 else box.presentation_time))
         return out
     return result
+
+
+def finding_scte35_field_width(i):
+    """C14: a scheduled SCTE-35 event whose values exceed a field width cannot be encoded (ValueError on the segment
+    path): avail_num / avails_expected are 8-bit fields (count >= 510), break duration is 33 bits."""
+    from dashlive.server.events.scte35_events import Scte35Events
+    sc = Scte35Events(start=0, interval=1000, count=int(i['count']), duration=int(i['duration']),
+                      timescale=int(i['ets']), inband=True)
+    try:
+        sig = sc.create_binary_signal(int(i['event_id']), int(i['event_id']) * 1000)
+        data = sig.encode()
+        return False, f'encoded {len(data)} bytes'
+    except Exception as err:
+        return True, f'{type(err).__name__}: {str(err)[:160]}'
 
 
 def finding_interval_nonpositive(i):
